@@ -199,8 +199,10 @@ class Case:
                 g = r.choice(self.globals)
                 out.append({"k": "gset", "n": g["n"], "e": self.expr(g["ty"], env, 2)})
             elif c < 0.84 and "match" in self.feat and d > 0:
-                m = self.match_stmt(env, d)
+                m = self.match_stmt(env, d, ret if d < 2 else None)
                 out.append(m if m else self.print_stmt(env))
+                if m and m.get("form") == "return":
+                    break
             elif c < 0.87 and "lambda" in self.feat and d > 0:
                 out.append(self.lambda_let(env))
             elif c < 0.93 and self.classes and "alias" in self.feat:
@@ -290,7 +292,7 @@ class Case:
         body = self.stmts(body_env, r.randint(1, 3), d - 1, in_loop=True)
         return {"k": "loop", "c": cnt, "n": n, "body": body}
 
-    def match_stmt(self, env, d):
+    def match_stmt(self, env, d, ret=None):
         r = self.r
         opts = [(n, t) for n, t in env.items() if not isinstance(t, str) and t[0] in ("enum", "opt")]
         if not opts: return None
@@ -301,16 +303,33 @@ class Case:
         else:
             variants = self.decl(t)["variants"]
         use_wild = r.random() < 0.3 and len(variants) > 1
+        # the match as an expression: right-hand side of an assignment (`v = match ..`) or operand of `return`; the AST is the
+        # statement match whose arms assign / return (same meaning), `form` only selects the rendering
+        form = tgt = tt = None
+        scal = [(nm, ty_) for nm, ty_ in env.items() if isinstance(ty_, str) and nm in self.mutable]
+        c = r.random()
+        if scal and c < 0.4:
+            form = "assign"; tgt, tt = r.choice(scal)
+        elif ret is not None and c < 0.55:
+            form = "return"
+        def body(body_env):
+            if form == "assign": return [{"k": "set", "n": tgt, "e": self.expr(tt, body_env, 2)}]
+            if form == "return": return [{"k": "return", "e": self.expr(ret, body_env, 2)}]
+            return None
         for i, v in enumerate(variants):
             if use_wild and i == len(variants) - 1:
                 body_env = dict(env)
-                arms.append({"v": "_", "binds": [], "body": self.stmts(body_env, 1, d - 1)})
+                arms.append({"v": "_", "binds": [], "body": body(body_env) or self.stmts(body_env, 1, d - 1)})
                 break
             binds = [self.fresh("b") for _ in v["tys"]]
             body_env = dict(env)
             for b, bt in zip(binds, v["tys"]): body_env[b] = bt
-            arms.append({"v": v["n"], "binds": binds, "body": self.stmts(body_env, r.randint(1, 2), d - 1)})
-        return {"k": "match", "n": n, "ty": t, "arms": arms}
+            arms.append({"v": v["n"], "binds": binds, "body": body(body_env) or self.stmts(body_env, r.randint(1, 2), d - 1)})
+        m = {"k": "match", "n": n, "ty": t, "arms": arms}
+        if form:
+            m["form"] = form
+            if tgt: m["tgt"] = tgt
+        return m
 
     def lambda_let(self, env):
         r = self.r
@@ -538,7 +557,14 @@ class Renderer:
             self.stmts(s["body"], ind + "    ")
             self.line(f"{ind}}}")
         elif k == "match":
-            self.line(f"{ind}match {s['n']} {{")
+            # expression forms are rendered only while every arm still has the shape they stand for (mutants may break it)
+            form = s.get("form")
+            if form == "assign" and not (s["arms"] and all(len(a["body"]) == 1 and a["body"][0]["k"] == "set" and a["body"][0]["n"] == s["tgt"] for a in s["arms"])):
+                form = None
+            if form == "return" and not (s["arms"] and all(len(a["body"]) == 1 and a["body"][0]["k"] == "return" for a in s["arms"])):
+                form = None
+            head = {"assign": f"{s.get('tgt')} = ", "return": "return "}.get(form, "")
+            self.line(f"{ind}{head}match {s['n']} {{")
             for a in s["arms"]:
                 if a["v"] == "_":
                     pat = "_"
@@ -546,10 +572,16 @@ class Renderer:
                     pat = "None" if a["v"] == "None" else f"Some({a['binds'][0]})"
                 else:
                     pat = f"{s['ty'][1]}::{a['v']}" + ("(" + ", ".join(a["binds"]) + ")" if a["binds"] else "")
-                self.line(f"{ind}    {pat} => {{")
-                self.stmts(a["body"], ind + "        ")
-                self.line(f"{ind}    }}")
-            self.line(f"{ind}}}")
+                if form:
+                    st = a["body"][0]
+                    al = len(self.out) + 1
+                    st["line"] = al
+                    self.line(f"{ind}    {pat} => {self.e(st['e'], al)},")
+                else:
+                    self.line(f"{ind}    {pat} => {{")
+                    self.stmts(a["body"], ind + "        ")
+                    self.line(f"{ind}    }}")
+            self.line(f"{ind}}}" + (";" if form else ""))
         elif k == "lamlet":
             ps = ", ".join(f"{p}: {TYN[t]}" for p, t in s["params"])
             self.line(f"{ind}let {s['n']} = |{ps}|: {TYN[s['ret']]} {{")
